@@ -250,25 +250,50 @@ def log_equals(ctx, a, b, tag):
                Implies(And(j >= 0, j < to_z3(a.n)), And(a.termf(j) == b.termf(j), a.cmdf(j) == b.cmdf(j))))
 
 
-def _append_loop_spec(so, old, E, p):
-    """loop #1 of __onMessageReceived: `for entry in newEntries: self.__raftLog.add(*entry)`.
-    Constructive invariant: after k iterations the journal is old[:p+1-first] ++ E[:k]."""
+def _match_loop_spec(so, old, E, p):
+    """loop #0: `while matched < len(newEntries) and ... prevEntries[matched+1][2] == newEntries[matched][2]: matched += 1`
+    invariant: 0 <= matched <= len(E), p+matched <= last, and the first `matched` entries of the message have the
+    terms of the journal entries at the same indices"""
     olog = old.get('raftLog')
     base = to_z3(p) - to_z3(olog.first) + 1
 
-    def form(k):
+    def inv(I, fr, it):
+        mt = fr.locals['matched']
+        j = z3.Int('jm')
+        agree = z3.ForAll([j], z3.Implies(z3.And(j >= 0, j < to_z3(mt)), olog.termf(base + j) == E.tf(j)))
+        return [('range', And(mt >= 0, mt <= to_z3(E.n), to_z3(p) + mt <= olog.last_idx())),
+                ('matched-prefix-has-equal-terms', agree if is_sym(mt) else True)]
+    return LoopSpec('C01+C04:R7.match-loop', inv, quant=True)
+
+
+def _append_loop_spec(so, old, E, p):
+    """loop #2: `for entry in newEntries[matched:]: self.__raftLog.add(*entry)`.
+    Constructive invariant: after k iterations the journal is (journal at loop entry) ++ E[matched : matched+k]."""
+    st = {}
+
+    def form(I, fr, k):
+        ent = st['entry']
+        mt = to_z3(fr.locals['matched'])
+        n0 = to_z3(ent.n)
         k = to_z3(k)
-        return LogCell(olog.first, base + k,
-                       (lambda i: z3.If(i < base, olog.cmdf(i), E.cf(i - base))),
-                       (lambda i: z3.If(i < base, olog.termf(i), E.tf(i - base))), olog.meta_commit)
+        return LogCell(ent.first, n0 + k,
+                       (lambda i: z3.If(i < n0, ent.cmdf(i), E.cf(mt + i - n0))),
+                       (lambda i: z3.If(i < n0, ent.termf(i), E.tf(mt + i - n0))), ent.meta_commit)
+
+    def inv(I, fr, it):
+        if not is_sym(it['k']) and it['k'] == 0 and 'entry' not in st:
+            st['entry'] = so.log()
+        return []
 
     def construct(I, fr, it):
-        I.ctx.setcell(so.get('raftLog'), form(it['k']))
+        I.ctx.setcell(so.get('raftLog'), form(I, fr, it['k']))
 
     def check(I, fr, it):
-        return [('journal-is-prefix-plus-entries', log_equals(I.ctx, so.log(), form(it['k']), 'x'))]
+        if 'entry' not in st:
+            return []
+        return [('journal-is-entry-state-plus-new-entries', log_equals(I.ctx, so.log(), form(I, fr, it['k']), 'x'))]
 
-    return LoopSpec('C01+C04:R7.append-loop', lambda I, fr, it: [], construct=construct, check=check)
+    return LoopSpec('C01+C04:R7.append-loop', inv, construct=construct, check=check)
 
 
 def ae_message(ctx, so, kind):
@@ -313,7 +338,7 @@ def loadDump_summary(I, selfv, args, kwargs):
     so = I.hooks['so']
     clear = kwargs.get('clearJournal', args[0] if args else None)
     if ctx.decide(FreshBool('dumpLoadFails'), 'dump-load-fails'):
-        return None
+        return False
     prev_idx = FreshInt('dumpPrevIdx')
     ctx.assume(prev_idx >= 1)
     cf = z3.Function(fresh_name('dump_cmd'), z3.IntSort(), z3.IntSort())
@@ -329,7 +354,7 @@ def loadDump_summary(I, selfv, args, kwargs):
         for nm in ('otherNodes',):
             cell = so.cell(nm)
             ctx.setcell(so.get(nm), NSet([Ite(dyn, FreshBool('dumpVoter'), b) if i < so.U else False for i, b in enumerate(cell.bits)]))
-    return None
+    return True
 
 
 def setTransmissionData_ext(I, selfv, args, kwargs):
@@ -378,7 +403,8 @@ def msg_append_entries(ctx, kind):
     loops = {}
     hooks = {'loads_recvbuf': loads_recvbuf, 'ae_prev': ex.get('p'), 'dump_changes_members': False}
     if kind == 'regular':
-        loops = {HANDLER: loop_table(so.mod, HANDLER, {1: _append_loop_spec(so, old, ex['E'], ex['p'])})}
+        loops = {HANDLER: loop_table(so.mod, HANDLER, {0: _match_loop_spec(so, old, ex['E'], ex['p']),
+                                                        2: _append_loop_spec(so, old, ex['E'], ex['p'])})}
     reg = dict(SUMMARIES)
     reg['SyncObj.__loadDumpFile'] = loadDump_summary
     reg['Serializer.setTransmissionData'] = setTransmissionData_ext
@@ -455,8 +481,10 @@ def msg_append_entries(ctx, kind):
         if kind == 'regular':
             q = FreshInt('q')
             ctx.assume(And(q >= 0, q < m))
-            ctx.prove(And(log.termf(p + 1 + q - first0) == eterm(q), log.cmdf(p + 1 + q - first0) == ecmd(q)),
-                      'C01+C04:R7.agrees-with-message')
+            pos = p + 1 + q - first0
+            ctx.prove(log.termf(pos) == eterm(q), 'C01+C04:R7.agrees-with-message-on-terms')
+            ctx.prove(Or(log.cmdf(pos) == ecmd(q), And(p + 1 + q <= last0, olog.termf(pos) == eterm(q), log.cmdf(pos) == olog.cmdf(pos))),
+                      'C01+C04:R7.entry-is-message-entry-or-kept-entry-of-same-term')
             # R7.a: an existing entry is removed only if it conflicts with an entry of the message
             w = FreshInt('w')
             ctx.assume(And(w > p, w <= last0))
